@@ -25,8 +25,9 @@ RULE = (
     "ALL legal section skeletons (first header H1 or H2, each next level <= previous+1, levels 1-4) with up to N headers "
     "(quick N=6: 549 skeletons, thorough N=8: 4924) x K seeded decoration placements (tags of all four kinds, page/"
     "anchor/ID links, simple/inline/bullet properties with keys deliberately reused across nested scopes, dates on title "
-    "line, later header lines, every section header, in-block comments and items; all-digit tags); every decoration value "
-    "unique per placement. distinct = distinct (skeleton, decoration-placement bitmap) pairs with >= 1 note under >= 1 "
+    "line, later header lines, every section header, in-block comments and items; all-digit tags); decoration values are "
+    "unique per placement (a leak names its source scope) except that 20-30% of the placements repeat an earlier tag or "
+    "key::value pair verbatim in another scope. distinct = distinct (skeleton, decoration-placement bitmap) pairs with >= 1 note under >= 1 "
     "decorated scope."
 )
 ASSUMPTIONS = [
@@ -77,6 +78,8 @@ class _Deco:
         self.rng = rng
         self.n = 0
         self.bitmap: list[str] = []
+        self.seen_props: list = []  # (key, value) pairs written so far: some placements repeat one verbatim
+        self.seen_tags: list = []
 
     def u(self, label: str) -> str:
         self.n += 1
@@ -94,7 +97,12 @@ class _Deco:
             if r < 0.4:
                 kind = rng.choice("#@%+")
                 attr = {"#": "areas", "@": "contexts", "%": "people", "+": "projects"}[kind]
-                out.append(W(kind + "t" + u, form="tag", **{attr: ("t" + u,)}))
+                name = "t" + u
+                if self.seen_tags and rng.random() < 0.2:
+                    kind, name = rng.choice(self.seen_tags)  # the very same tag again in another scope
+                    attr = {"#": "areas", "@": "contexts", "%": "people", "+": "projects"}[kind]
+                self.seen_tags.append((kind, name))
+                out.append(W(kind + name, form="tag", **{attr: (name,)}))
             elif r < 0.55:
                 t = rng.choice(["l" + u, "d/l" + u, "l" + u + "#anc"])
                 out.append(W("[[" + t + "]]", links=(t,), form="link"))
@@ -107,11 +115,16 @@ class _Deco:
                 if not keys:
                     continue
                 k = rng.choice(keys)
+                v = "v" + u
+                same = [(k2, v2) for k2, v2 in self.seen_props if k2 in keys and " " not in v2]
+                if same and rng.random() < 0.3:
+                    k, v = rng.choice(same)  # the very same key::value again in another scope
                 used_keys.add(k)
                 if rng.random() < 0.6:
-                    out.append(W(f"{k}::v{u}", props=((k, "v" + u),), form="prop"))
+                    self.seen_props.append((k, v))
+                    out.append(W(f"{k}::{v}", props=((k, v),), form="prop"))
                 else:
-                    out.append(W(f"[{k}:: v{u} w]", props=((k, f"v{u} w"),), form="inline_prop"))
+                    out.append(W(f"[{k}:: {v} w]", props=((k, f"{v} w"),), form="inline_prop"))
             elif r < 0.95:
                 out.append(pg.w_digit_tag(rng))
             else:
